@@ -1121,3 +1121,37 @@ package kafka
 //@   callsite iface Context.Err ensures result != nil
 //@   ensures m.error == nil && result1 == nil ==> r.offset == result0.Offset + 1 && r.lag == m.watermark - r.offset
 //@   loop 0 invariant true
+
+//@ property C04 C05
+
+// ---- legacy produce v2: the message set size announced equals the bytes the message writer emits ----
+//@ func timestamp
+//@   trusted converts a time.Time to Kafka milliseconds
+//@   pure
+//@ func (*crc32Writer).writeInt8
+//@   trusted checksum accumulator (no bytes go to the connection)
+//@   modifies *w
+//@ func (*crc32Writer).writeInt64
+//@   trusted checksum accumulator
+//@   modifies *w
+//@ func (*crc32Writer).writeBytes
+//@   trusted checksum accumulator
+//@   modifies *w
+//@ func (*writeBuffer).writeBytes
+//@   requires len(b) <= 0x7ffffff0
+//@   modifies wb.$wn, wb.b
+//@   ensures wb.$wn == old(wb.$wn) + 4 + len(b)
+//@ func messageSize
+//@   pure
+//@   ensures len(key) <= 0x3ffffff0 && len(value) <= 0x3ffffff0 ==> result == 22 + int32(len(key)) + int32(len(value))
+//@ func (*writeBuffer).writeMessage
+//@   requires len(key) <= 0x3ffffff0 && len(value) <= 0x3ffffff0 && cw != nil
+//@   modifies wb.$wn, wb.b, *cw
+//@   ensures wb.$wn == old(wb.$wn) + 12 + int(messageSize(key, value))
+//@ func messageSetSize
+//@   pure
+//@   requires forall k :: 0 <= k && k < len(msgs) ==> len(msgs[k].Key) <= 0x100000 && len(msgs[k].Value) <= 0x100000
+//@   requires len(msgs) <= 1000
+//@   ensures len(msgs) == 0 ==> size == 0
+//@   ensures len(msgs) > 0 ==> size == messageSetSize(msgs[:len(msgs)-1]) + 34 + int32(len(msgs[len(msgs)-1].Key)) + int32(len(msgs[len(msgs)-1].Value))
+//@   loop 0 invariant -1 <= rangeindex && rangeindex < len(msgs) && size == messageSetSize(msgs[:rangeindex+1])
